@@ -521,7 +521,7 @@ def rule_cli(ctx: Ctx, repo: Repo) -> None:
             want = sorted(map(repr, [i for i in stub_items if i not in src_items]))
             if variant == "plain":
                 ctx.check(got == want, "R-C16.2", gn.fq, "the imports to confine are exactly the stub's imports that the source does not already have (set difference, stub minus source)",
-                          construct=f"moved {got} expected {want}")
+                          construct=f"moved {got if got is not None else str(moved)[:200]} expected {want}")
             else:
                 ctx.check(got == want, "R-C16.2", gn.fq,
                           "an import the source already has is never taken for new, also when the source binds the same symbol more than once (try/except ImportError fallbacks)",
